@@ -196,6 +196,8 @@ def pki() -> PKI:
         p.hand("AT_app_first", tbs_cert(None, app=[PSID_GEN, PSID_CAM]), "AA_n", "AA_n")
         p.hand("AT_app_last", tbs_cert(None, app=[PSID_CAM, PSID_GEN]), "AA_n", "AA_n")
         p.hand("AT_app_mid", tbs_cert(None, app=[PSID_CAM, PSID_GEN, PSID_DENM]), "AA_n", "AA_n")
+        # short-lived genuine ticket for the validity-boundary lattice: valid [T0 + 100 s, T0 + 110 s]
+        p.issue("AT_short", tbs_cert(None, app=gen, start=its_s(T0) + 100, dur=("seconds", 10)), "AA")
     finally:
         ENV.urandom_state = prev
     _PKI = p
